@@ -222,6 +222,26 @@ def check_cli_case(cr, ctx):
         ctx.count("cli:runs-with-fasta-output")
 
 
+def rewrite_input_fasta(cr, rng):
+    """Same records re-wrapped at another line width (and other residue case), written with the
+    mtime the index cache files already have - the cache must not be trusted (cf. C15)."""
+    recs = fasta_ref.parse(cr["fasta_bytes"])
+    w = rng.choice([11, 37, 50, 70])
+    out = b""
+    for r in recs:
+        seq = r["seq"].swapcase() if rng.random() < 0.5 else r["seq"]
+        out += b">" + r["name"].encode() + b"\n" + b"\n".join(seq[i : i + w] for i in range(0, len(seq), w)) + b"\n"
+    fa = cr["assembly_file"]
+    caches = [Path(str(fa) + ".fai"), Path(str(fa) + ".agp")]
+    if not all(c.exists() for c in caches):
+        return False
+    t = min(c.stat().st_mtime_ns for c in caches)
+    fa.write_bytes(out)
+    os.utime(fa, ns=(t, t))
+    cr["fasta_bytes"] = out
+    return True
+
+
 def run_cli(shard, ctx):
     from vf import cli_runs
 
@@ -231,6 +251,10 @@ def run_cli(shard, ctx):
         cr = cli_runs.fasta_case(rng, scratch / f"c{i}", tagged=(i % 2 == 1))
         try:
             check_cli_case(cr, ctx)
+            if i % 3 == 0 and rewrite_input_fasta(cr, rng):
+                cli_runs.clear_outputs(cr)
+                ctx.count("cli:rerun-after-fasta-rewritten-with-cache-mtime")
+                check_cli_case(cr, ctx)
         finally:
             cli_runs.cleanup(cr)
 
@@ -271,5 +295,6 @@ def gates(c, tier):
         "rows:gap-longer-than-buffer": 300,
         "monitor_evals:write_scaffold": 3000,
         "cli:pairs-ok": 20,
+        "cli:rerun-after-fasta-rewritten-with-cache-mtime": 10,
     }
     return [f"{k}>={v} (got {c.get(k, 0)})" for k, v in need.items() if c.get(k, 0) < v]
